@@ -169,8 +169,9 @@ func ChildMain(run func(in *Input, rec *Rec)) {
 	for i := range ins {
 		rec := &Rec{id: ins[i].ID, w: w}
 		rec.line(fmt.Sprintf("S %d", ins[i].ID))
+		t0 := time.Now()
 		run(&ins[i], rec)
-		rec.line(fmt.Sprintf("E %d", ins[i].ID))
+		rec.line(fmt.Sprintf("E %d %d", ins[i].ID, time.Since(t0).Milliseconds()))
 	}
 }
 
@@ -185,11 +186,12 @@ type childRes struct {
 	ended   map[int]bool
 	started []int
 	lastTgt map[int]string
+	ms      map[int]int
 }
 
 func parseResults(path string) *childRes {
 	cr := &childRes{results: map[int][][2]string{}, panics: map[int][][3]string{}, fails: map[int][][2]string{},
-		lines: map[int][][2]string{}, ended: map[int]bool{}, lastTgt: map[int]string{}}
+		lines: map[int][][2]string{}, ended: map[int]bool{}, lastTgt: map[int]string{}, ms: map[int]int{}}
 	f, err := os.Open(path)
 	if err != nil {
 		return cr
@@ -211,6 +213,9 @@ func parseResults(path string) *childRes {
 			cr.started = append(cr.started, id)
 		case w[0] == "E":
 			cr.ended[id] = true
+			if len(w) > 2 {
+				cr.ms[id], _ = strconv.Atoi(w[2])
+			}
 		case w[0] == "T" && len(w) == 3:
 			cr.lastTgt[id] = w[2]
 		case w[0] == "R" && len(w) == 4:
@@ -240,7 +245,7 @@ type Config struct {
 func DefaultConfig() Config {
 	return Config{
 		Batch:     verifutil.EnvInt("VERIF_C04_BATCH_N", 150),
-		StallS:    verifutil.EnvInt("VERIF_C04_HANG_S", 12),
+		StallS:    verifutil.EnvInt("VERIF_C04_HANG_S", 10),
 		MaxHangs:  verifutil.EnvInt("VERIF_C04_MAX_HANGS", 2),
 		ChildTest:  "TestVerifC04Child",
 	}
@@ -327,6 +332,7 @@ wait:
 	return parseResults(rf), d
 }
 
+var reMalloc = regexp.MustCompile(`runtime\.mallocgc\(0x([0-9a-f]+),`)
 var reGoroutine = regexp.MustCompile(`(?m)^goroutine \d+(?: gp=\S+ m=\S+(?: mp=\S+)?)? \[([^\]]*)\]:$`)
 
 // classifyDeath turns the stderr of a dead child into (kind, site).
@@ -369,6 +375,17 @@ func classifyDeath(d *died) (kind, site, head string) {
 		return kind, "unknown", firstLines(s, 12)
 	}
 	rest := s[idx:]
+	if strings.HasPrefix(rest, "fatal error: out of memory") || strings.Contains(firstLines(rest, 3), "pthread_create failed") ||
+		strings.Contains(firstLines(rest, 3), "cannot allocate memory") {
+		// Out of memory.  When the failing allocation itself is huge its frame is the culprit;
+		// otherwise memory ran out wherever the next small allocation happened: name no frame.
+		if m := reMalloc.FindStringSubmatch(rest); m != nil {
+			if n, err := strconv.ParseUint(m[1], 16, 64); err == nil && n >= 256<<20 {
+				return "crash", SiteOf(rest), firstLines(rest, 14)
+			}
+		}
+		return "oom", "", firstLines(rest, 14)
+	}
 	if strings.Contains(rest, "stack overflow") || strings.Contains(rest, "goroutine stack exceeds") {
 		// the innermost frame is accidental: name the function that recurses
 		return kind, recursingSite(rest), firstLines(rest, 14)
@@ -458,9 +475,18 @@ func Run(out *verifutil.Out, inputs []Input, cfg Config) Summary {
 		inputs[i].ID = i
 	}
 	byID := func(id int) *Input { return &inputs[id] }
+	timeByClass := map[string]int{}
+	defer func() {
+		if os.Getenv("VERIF_C04_TIMES") != "" {
+			for k, v := range timeByClass {
+				fmt.Fprintf(os.Stderr, "TIME %8d ms %s\n", v, k)
+			}
+		}
+	}()
 	absorb := func(cr *childRes, ids []int) {
 		for _, id := range ids {
 			in := byID(id)
+			timeByClass[in.Class] += cr.ms[id]
 			for _, r := range cr.results[id] {
 				cl := r[1]
 				if cl == "panic" {
@@ -506,6 +532,9 @@ func Run(out *verifutil.Out, inputs []Input, cfg Config) Summary {
 		out.Count("out:" + tgt + ":crash")
 		out.Count("outcome:crash")
 		sig := kind + ":" + site
+		if kind == "oom" {
+			sig = "oom:" + tgt
+		}
 		if !confirmed {
 			sig += ":only-in-batch"
 		}
@@ -575,7 +604,20 @@ func Run(out *verifutil.Out, inputs []Input, cfg Config) Summary {
 			d = &died{how: "exit"}
 		}
 		in := byID(culprit)
-		// confirm alone (a hang gets twice the time: the batch may just have been slow)
+		if d.how == "exit" {
+			// The S/E markers pin the culprit and the child's stderr names the site: no re-run needed.
+			reportDeath(in, cr, d, true)
+			k := 0
+			for i, id := range ids {
+				if id == culprit {
+					k = i
+				}
+			}
+			pending = pending[k+1:]
+			continue
+		}
+		// no progress for StallS seconds: run the suspect alone with twice the time (the machine
+		// may just have been busy)
 		cr2, d2 := runChild(cfg, []Input{*in}, 2*time.Duration(cfg.StallS)*time.Second, skipList())
 		if d2 != nil {
 			reportDeath(in, cr2, d2, true)
